@@ -240,6 +240,19 @@ def run_impl(alpha, ops, reserved):
             if bad is None and (observe(w, 0) != frozen or oracle(w, reserved)):
                 bad = (step, f"the other list of the {how} changed or became inconsistent "
                              f"({oracle(w, reserved) or 'content differs'}) although only its counterpart was operated on")
+    # finally: the list extended by itself -- terminates, holds every item twice (in order), and stays consistent
+    if bad is None and len(ops) % 3 == 0:
+        import codec_common as cc
+        before = list(nil)
+        _, e, _ = cc.guarded(lambda: nil.extend(nil), timeout=5)
+        if e is not None:
+            bad = (len(ops) - 1, f"extend(self) after the history {'does not terminate' if isinstance(e, cc.Hang) else 'raised ' + type(e).__name__}")
+        elif len(nil) != 2 * len(before) or any(a is not b for a, b in zip(list(nil), before + before)):
+            bad = (len(ops) - 1, f"extend(self) after the history: the list holds {len(nil)} items, twice the {len(before)} items were expected")
+        else:
+            r = oracle(nil, reserved)
+            if r:
+                bad = (len(ops) - 1, f"after extend(self): {r}")
     return obs, bad
 
 
